@@ -23,24 +23,33 @@ def jsonable(x):
     return repr(x)
 
 
-def run_case(case, sched_seed=None, choose=None, simultaneous=0.2):
+def run_case(case, sched_seed=None, choose=None, simultaneous=0.2, slow=None, inline=None):
     """build + run one case; -> record dict (JSON-able apart from transient fields)"""
     rec = dict(case=case, sched_seed=sched_seed, runs=[], build_error=None)
     try:
-        d, thunks = sched_cases.build(case)
+        tz.tawazi.cfg.RUN_DEBUG_NODES = bool(case.get("run_debug"))
+        try:
+            d, thunks = sched_cases.build(case)
+        finally:
+            tz.tawazi.cfg.RUN_DEBUG_NODES = False
     except BaseException as e:  # noqa: BLE001
         rec["build_error"] = "%s: %s" % (type(e).__name__, e)
         return rec
     rng = random.Random(sched_seed) if sched_seed is not None else None
     for ti, th in enumerate(thunks):
-        ctl = tz.Ctl(choose=None if choose is None else [list(c) for c in choose[ti]], fails={sched_cases.node_name(i) for i in case["fails"]}, rng=rng, simultaneous=simultaneous)
+        ctl = tz.Ctl(choose=None if choose is None else [list(c) for c in choose[ti]], fails={sched_cases.node_name(i) for i in case["fails"]}, rng=rng, simultaneous=simultaneous, free_run=bool(slow))
+        ctl.slow = slow or 0
+        if inline is not None:
+            ctl.inline_plan = [list(x) for x in inline[ti]] if ti < len(inline) else []
         tz.tawazi.cfg.TAWAZI_PROFILE_ALL_NODES = bool(case.get("profile"))
+        tz.tawazi.cfg.RUN_DEBUG_NODES = bool(case.get("run_debug"))
         try:
             st = tz.run_controlled(th, ctl, is_async=case["is_async"])
         finally:
             tz.tawazi.cfg.TAWAZI_PROFILE_ALL_NODES = False
+            tz.tawazi.cfg.RUN_DEBUG_NODES = False
         trace = list(ctl.trace)
-        run = dict(status=st[0], value=jsonable(st[1]), choices=ctl.choices, broken=ctl.broken, segs=[], first_choices=ctl.first_choices, first_options=ctl.first_options)
+        run = dict(status=st[0], value=jsonable(st[1]), choices=ctl.choices, broken=ctl.broken, segs=[], first_choices=ctl.first_choices, first_options=ctl.first_options, inline=ctl.inline_choices)
         # split the full trace (with worker events) per execution for the monitors
         full = []
         curfull = None
@@ -60,6 +69,11 @@ def run_case(case, sched_seed=None, choose=None, simultaneous=0.2):
                 s["monitor"] = sched_cases.monitors(dcfg, full[si] if si < len(full) else [], labels, end)
                 s["monitor"] += [(p_, m_) for ps_, m_ in diffs for p_ in ps_]
             except sched_cases.Unparsable as u:
+                # the independent monitors do not need the model's labels: they still supply a concrete failing run
+                try:
+                    s["monitor"] = sched_cases.monitors(dcfg, full[si] if si < len(full) else [], None, sched_cases.end_of(seg["evs"]))
+                except BaseException:  # noqa: BLE001
+                    pass
                 s["monitor"] += [(p_, m_) for ps_, m_ in diffs for p_ in ps_]
                 s["unparsable"] = str(u)
                 s["raw"] = jsonable(seg["evs"])
@@ -160,6 +174,7 @@ def explore_all_schedules(case, max_runs=200):
     records = []
     stack = [[]]
     runs = 0
+    bad_runs = 0
     while stack and runs < max_runs:
         prefix = stack.pop()
         rec = run_case(case, sched_seed=None, choose=[prefix])
@@ -168,6 +183,10 @@ def explore_all_schedules(case, max_runs=200):
         if not rec["runs"]:
             break
         run = rec["runs"][0]
+        if run["broken"] or run["status"] == "hang":
+            bad_runs += 1
+            if bad_runs >= 2:
+                break
         fc, fo = run.get("first_choices", []), run.get("first_options", [])
         for i in range(len(prefix), len(fc)):
             for alt in alternatives(fo[i]):
